@@ -14,7 +14,8 @@ search():     the property itself on the real code against the independent refer
 """
 import datetime as dtm, math
 from fractions import Fraction as F
-from harness.props import c07_ref as ref
+import json
+from harness.props import c07_ref as ref, c07_scen as scen
 
 PROP = 'C07'
 GENERATED = ['TimeUnits', 'TimeDefaults']
@@ -57,6 +58,7 @@ def tok(s):
     """ protocol token: exact rational of the decimal string, D-date or none """
     if s is None: return 'none'
     if is_date(s): return s
+    if s.lstrip('-').isdigit(): return s + 'i'          # handed to starsim as a Python int
     f = F(s)
     return f'{f.numerator}/{f.denominator}' if f.denominator != 1 else str(f.numerator)
 
@@ -74,7 +76,25 @@ def mod_line(spec, mod):
     return sim_line('mod', spec) + ' ' + ' '.join(['_' if mod.get('unit') is None else unit_tok(mod.get('unit')), tok(mod.get('start')), tok(mod.get('stop')), tok(mod.get('dt'))])
 
 
+class Hang(BaseException):
+    """ the call did not return within the time limit """
+
+
+def with_timeout(seconds, fn, *a, **kw):
+    """ run fn; raise Hang if it does not return (SIGALRM; the check runs in the main thread) """
+    import signal
+    def handler(signum, frame): raise Hang(f'no result after {seconds} s')
+    old = signal.signal(signal.SIGALRM, handler)
+    signal.alarm(seconds)
+    try:
+        return fn(*a, **kw)
+    finally:
+        signal.alarm(0)
+        signal.signal(signal.SIGALRM, old)
+
+
 def err_kind(e):
+    if isinstance(e, Hang): return 'E:Hang'
     if isinstance(e, KeyError): return 'E:Key'
     if isinstance(e, ValueError): return 'E:Value'
     if isinstance(e, TypeError): return 'E:Type'
@@ -103,18 +123,87 @@ def observe_time(t, results=None):
              tvec=[float(x) for x in t.tvec],
              abstvec=None if t.abstvec is None else [float(x) for x in t.abstvec],
              start=t.start, stop=t.stop, dt=t.dt, reslens={})
+    o['now'] = observe_now(t)
+    o['copies'] = observe_copies(t, o)
     return o
 
 
-def result_lens(results):
+def canon_point(x):
+    """ a time point as a comparable plain value: ISO date or float """
+    if hasattr(x, 'year') and hasattr(x, 'month'): return iso(x)
+    return float(x)
+
+
+def observe_now(t):
+    """ Time.now() in every representation at a few values of the step counter (restored afterwards) """
+    out = []
+    n = int(t.npts)
+    if n == 0: return out
+    ti0 = t.ti
+    try:
+        for ti in sorted({0, n // 2, n - 1, n + 2}):
+            t.ti = ti
+            rec = dict(ti=ti)
+            for key in (None, 'time', 'none', 'date', 'year', 'tvec', 'str'):
+                try:
+                    v = t.now(key)
+                    rec[str(key)] = v if key == 'str' else canon_point(v)
+                except Exception as e:
+                    rec[str(key)] = f'raised {type(e).__name__}'
+            try:
+                t.now('abs'); rec['badkey'] = 'accepted'
+            except ValueError: rec['badkey'] = 'E:Value'
+            except Exception as e: rec['badkey'] = type(e).__name__
+            out.append(rec)
+    finally:
+        t.ti = ti0
+    return out
+
+
+def observe_copies(t, o):
+    """ pickle round trip and deep copy of an initialised Time: same vectors, dates are ss.date again """
+    import pickle, sciris as sc, starsim as ss, numpy as np
+    probs = []
+    for how, mk in (('pickle', lambda: pickle.loads(pickle.dumps(t))), ('deepcopy', lambda: sc.dcp(t))):
+        try:
+            c = mk()
+        except Exception as e:
+            probs.append(f'{how} raised {type(e).__name__}: {str(e)[:80]}'); continue
+        if int(c.npts) != o['npts']: probs.append(f'{how}: npts {c.npts} != {o["npts"]}')
+        for name in ('timevec', 'yearvec', 'datevec', 'tvec', 'abstvec'):
+            a, b = getattr(t, name), getattr(c, name)
+            if (a is None) != (b is None) or (a is not None and [canon_point(x) for x in a] != [canon_point(x) for x in b]):
+                probs.append(f'{how}: {name} differs')
+        for name in ('start', 'stop', 'dt', 'unit', 'ti'):
+            a, b = getattr(t, name), getattr(c, name)
+            if (canon_point(a) if hasattr(a, 'year') else a) != (canon_point(b) if hasattr(b, 'year') else b): probs.append(f'{how}: {name} {a!r} -> {b!r}')
+        for name in ('datevec', 'timevec'):
+            vec = getattr(c, name)
+            if vec is not None and len(vec) and hasattr(vec[0], 'year') and type(vec[0]) is not ss.date:
+                probs.append(f'{how}: {name}[0] is {type(vec[0]).__name__}, not ss.date')
+        if hasattr(t.start, 'year') and type(c.start) is not ss.date: probs.append(f'{how}: start is {type(c.start).__name__}, not ss.date')
+    return probs
+
+
+def result_lens(results, owner_t=None):
+    """ length of every Result and of its timevec; with owner_t also whether the timevec entries are the owner's """
     import starsim as ss
     out = {}
+    own = None if owner_t is None else [canon_point(x) for x in owner_t.timevec]
     for k, r in results.items():
         if isinstance(r, ss.Result):
             out[k] = len(r)
             tv = getattr(r, 'timevec', None)
             if tv is not None:
                 out[k + '.timevec'] = len(tv)
+                if own is not None and [canon_point(x) for x in tv] != own:
+                    out[k + '.timevec-entries'] = -1       # marker: entries differ from the owner's timevec
+    tv = getattr(results, 'timevec', None) if not isinstance(results, dict) else results.get('timevec')
+    if own is not None and tv is not None and not isinstance(tv, ss.Result):
+        try:
+            if [canon_point(x) for x in tv] != own: out['<results>.timevec-entries'] = -1
+        except Exception:
+            pass
     return out
 
 
@@ -128,21 +217,26 @@ def make_module(kind, mod):
         if mod.get('unit') is not None: kw['unit'] = mod['unit']
         for k in ('start', 'stop'):
             if mod.get(k) is not None: kw[k] = pyval(mod[k])
-        if mod.get('dt') is not None: kw['dt'] = pyval(mod['dt'], force_float=True)
+        if mod.get('dt') is not None: kw['dt'] = pyval(mod['dt'])
+        if mod.get('name') is not None: kw['name'] = mod['name']
     if kind == 'sis': return ss.SIS(**kw)
     if kind == 'randomnet': return ss.RandomNet(**kw)
     if kind == 'births': return ss.Births(**kw)
     raise ValueError(kind)
 
 
-def run_impl(spec, mod=None, modkind='sis', extra=()):
-    """ Build and initialise a real sim; returns dict(err=..) or dict(sim=obs, mods={name: obs}, modpars={name: pars}) """
+SHORT_LIMIT = 3     # for dt = 0, where the model predicts that the call never returns
+TIME_LIMIT = 20     # seconds for one ss.Sim(...).init(); a constructor that does not return is a finding, not a stall
+
+
+def run_impl(spec, mod=None, modkind='sis', extra=(), mod2=None):
+    """ Build and initialise a real sim; returns dict(err=..) or dict(sim=obs, mods={name: obs}, modpars={name: pars}).
+        mod2: a second instance of the same class (name 'second') with its own overrides """
     import starsim as ss
     kw = dict(n_agents=N_AGENTS, verbose=0)
     if spec.get('unit') is not None: kw['unit'] = spec['unit']
-    for k in ('start', 'stop', 'dur'):
+    for k in ('start', 'stop', 'dur', 'dt'):
         if spec.get(k) is not None: kw[k] = pyval(spec[k])
-    if spec.get('dt') is not None: kw['dt'] = pyval(spec['dt'], force_float=True)
     mods = {}
     modpars = {}
     try:
@@ -150,21 +244,29 @@ def run_impl(spec, mod=None, modkind='sis', extra=()):
             kinds = [modkind] + [k for k in extra if k != modkind]
             for k in kinds:
                 m = make_module(k, mod if k == modkind else None)
-                mods[k] = m
+                mods[k] = [m]
                 t = m.t
                 modpars[m.name] = dict(unit=t.unit, start=t.start, stop=t.stop, dt=t.dt)
+            if mod2 is not None:
+                m = make_module(modkind, dict(mod2, name='second'))
+                mods[modkind].append(m)
+                modpars[m.name] = dict(unit=m.t.unit, start=m.t.start, stop=m.t.stop, dt=m.t.dt)
             if 'sis' in mods: kw['diseases'] = mods['sis']
             if 'randomnet' in mods: kw['networks'] = mods['randomnet']
             if 'births' in mods: kw['demographics'] = mods['births']
-        sim = ss.Sim(**kw)
-        sim.init()
-    except Exception as e:
+        def build():
+            sim = ss.Sim(**kw)
+            sim.init()
+            return sim
+        dt0 = spec.get('dt') is not None and F(spec['dt']) == 0
+        sim = with_timeout(SHORT_LIMIT if dt0 else TIME_LIMIT, build)
+    except (Exception, Hang) as e:
         return dict(err=err_kind(e), exc=f'{type(e).__name__}: {str(e)[:200]}', modpars=modpars)
     out = dict(sim=observe_time(sim.t), mods={}, modpars=modpars)
-    out['sim']['reslens'] = result_lens(sim.results)
+    out['sim']['reslens'] = result_lens(sim.results, sim.t)
     for m in sim.modules:
         o = observe_time(m.t)
-        o['reslens'] = result_lens(m.results)
+        o['reslens'] = result_lens(m.results, m.t)
         out['mods'][m.name] = o
     return out
 
@@ -218,8 +320,41 @@ def compare_obs(ctx, o, m, with_abst=True):
         i = next((i for i, (a, b) in enumerate(zip(o['datevec'], m['datevec'])) if a != b), min(len(o['datevec']), len(m['datevec'])))
         return f"datevec[{i}]: impl={o['datevec'][i:i+1]} model={m['datevec'][i:i+1]}"
     for k, ln in sorted(o['reslens'].items()):
+        if ln == -1:
+            return f'result {k[:-len(".timevec-entries")]}: its timevec entries are not the owner\'s timevec'
         if ln != m['reslen']:
             return f'len(result {k}): impl={ln} model={m["reslen"]}'
+    d = compare_now(ctx, o, m)
+    if d: return d
+    if o.get('copies'):
+        return 'copy of the Time object differs: ' + '; '.join(o['copies'][:3])
+    return None
+
+
+def date_str(isodate):
+    import starsim as ss
+    return isodate.replace('-', ss.options.date_sep)
+
+
+def compare_now(ctx, o, m):
+    """ Time.now(key) at step counter ti must be entry min(ti, npts-1) of the representation the key names """
+    n = m['npts']
+    for rec in o.get('now', []):
+        idx = min(rec['ti'], n - 1)        # == Timeline.nowIndex (cross-checked against the driver in check_contracts)
+        def close(x, y): return isinstance(x, float) and abs(micro(x) - y) <= 1
+        native = (lambda v: close(v, m['timevec'][idx])) if m['numeric'] else (lambda v: v == m['datevec'][idx])
+        exp = {'None': native, 'time': native, 'none': native,
+               'date': lambda v: v == m['datevec'][idx], 'year': lambda v: close(v, m['yearvec'][idx]),
+               'tvec': lambda v: close(v, m['tvec'][idx])}
+        for key, ok in exp.items():
+            if not ok(rec[key]):
+                return f"now({key}) at ti={rec['ti']}: impl={rec[key]!r}, model index {idx}"
+        want = f"{m['timevec'][idx] / MICRO:0.1f}" if m['numeric'] else date_str(m['datevec'][idx])
+        if rec['str'] != want:
+            return f"now('str') at ti={rec['ti']}: impl={rec['str']!r} expected {want!r}"
+        if rec['badkey'] != 'E:Value':
+            return f"now('abs') (invalid key): {rec['badkey']}"
+        ctx.count('now_checks')
     return None
 
 
@@ -424,6 +559,11 @@ def check_contracts(ctx):
             ctx.broke('correspondence', 'C07.contract', f'library contract `{ln}`: library gives {e}, model gives {o}', data=dict(line=ln))
             return
     ctx.count('contract_checks', len(lines))
+    pairs = [(n, ti) for n in (1, 2, 7, 57) for ti in (0, 1, n - 1, n, n + 3)]
+    got = ctx.drive(DRIVER, [f'now {n} {ti}' for n, ti in pairs])
+    for (n, ti), g in zip(pairs, got):
+        if g != str(min(ti, n - 1)):
+            ctx.broke('correspondence', 'C07.contract', f'nowIndex {n} {ti}: model {g}, harness formula {min(ti, n - 1)}')
     # np.round to time_eps = nearest multiple, ties to even, and linspace endpoints
     xs = np.array([0.0000005, 0.0000015, 2000.1234565, 1.5e-6, 2.5e-6])
     if MICRO == 10**6 and list(np.round(xs, 6)) != [0.0, 2e-06, float(np.round(2000.1234565, 6)), 2e-06, 2e-06]:
@@ -460,8 +600,9 @@ def mod_pars_line(spec, mp):
         if isinstance(x, str):
             return 'D' + x if x[:1].isdigit() and '-' in x else x
         if hasattr(x, 'year'): return 'D' + iso(x)
-        return repr(float(x)) if force_float or isinstance(x, float) else str(x)
-    return mod_line(spec, dict(unit=mp['unit'], start=val(mp['start']), stop=val(mp['stop']), dt=val(mp['dt'], True)))
+        import numpy as np
+        return repr(float(x)) if isinstance(x, (float, np.floating)) else str(int(x))
+    return mod_line(spec, dict(unit=mp['unit'], start=val(mp['start']), stop=val(mp['stop']), dt=val(mp['dt'])))
 
 
 def grid_line(s):
@@ -510,8 +651,8 @@ def correspond(ctx):
     check_contracts(ctx)
     rng = ctx.rng
     # (1) the sim's own timeline
-    n1 = ctx.budget(450, 3000)
-    specs = [gen_sim_spec(rng) for _ in range(n1)]
+    n1 = ctx.budget(280, 3000)
+    specs = scen.fixed_sims() + [gen_sim_spec(rng) for _ in range(n1)]
     specs += corpus_specs()
     lines = []
     for s in specs:
@@ -532,7 +673,7 @@ def correspond(ctx):
             if gd['asis'] != gd['float']:
                 ctx.broke('correspondence', 'C07.float', f'software float64 model and Lean Float disagree on `{lines[2*i+1]}`: {g}', data=dict(sim=s))
             if gd['asis'] != gd['spec']: ctx.count('float_vs_exact_grid_differs')
-        r = run_impl(s)
+        r = run_case(dict(kind='sim', sim=s))
         ctx.case(('sim', tuple(sorted((k, v) for k, v in s.items() if k not in ('family', 'reject')))),
                  nontrivial=(m['kind'] == 'err' or m.get('npts', 0) > 1),
                  sample=dict(kind='sim', spec=s, impl=('error ' + r['err']) if 'err' in r else dict(npts=r['sim']['npts'], first=r['sim']['datevec'][:2]), model=out[2 * i][:160]))
@@ -551,12 +692,12 @@ def correspond(ctx):
             ctx.broke('correspondence', 'C07.sim', f'sim timeline of {fmt_spec(s)} diverges from Model/Timeline.lean: {div}', data=dict(kind='sim', sim=s))
             if ndiv >= 5: break
     # (2) module overrides
-    n2 = ctx.budget(150, 1200)
-    cases = [gen_mod_case(rng) for _ in range(n2)]
+    n2 = ctx.budget(90, 1200)
+    cases = scen.fixed_mods() + [gen_mod_case(rng) for _ in range(n2)]
     runs = []; all_lines = []
     for c in cases:
         s = c['sim']
-        r = run_impl(s, c['mod'], c['modkind'], c['extra'])
+        r = run_case(dict(kind='mod', **c))
         # model lines: the sim, then one per module with the parameters the constructed module really holds
         lines = [sim_line('sim', s)]; names = [None]
         for name, mp in r['modpars'].items():
@@ -571,7 +712,7 @@ def correspond(ctx):
         s = c['sim']
         out = all_out[off:off + len(lines)]
         ms = [parse_model(o) for o in out]
-        ctx.count('modcases'); ctx.count('modkind_' + c['modkind'])
+        ctx.count('modcases'); ctx.count('modkind_' + c['modkind']); ctx.count('family_' + s.get('family', '?') + '_mod')
         if any(m['kind'] == 'bad' for m in ms):
             ctx.broke('correspondence', 'C07.driver', f'driver rejected one of {lines}: {out}', data=dict(kind='mod', **c)); continue
         if any(m['kind'] == 'unsupported' for m in ms):
@@ -598,18 +739,77 @@ def correspond(ctx):
                     if m['npts'] == 0: ctx.count('module_empty_timeline')
                     if m['abstvec'] and m['abstvec'] != m['tvec']: ctx.count('module_placed_off_its_own_tvec')
         nontriv = 'err' in r or any(m.get('npts', 0) > 1 for m in ms)
-        ctx.case(('mod', repr(sorted(s.items())), repr(sorted(c['mod'].items())), c['modkind']), nontrivial=nontriv,
+        ctx.case(('mod', repr(sorted(s.items())), repr(sorted(c['mod'].items())), c['modkind'], repr(c.get('mod2'))), nontrivial=nontriv,
                  sample=dict(kind='module', sim=s, mod=c['mod'], modkind=c['modkind'],
                              impl=('error ' + r['err']) if 'err' in r else {k: dict(npts=v['npts'], abstvec=v['abstvec'][:3]) for k, v in r['mods'].items()}))
         if div:
             ndiv += 1
-            ctx.broke('correspondence', 'C07.module', f"sim {fmt_spec(s)} with {c['modkind']}({fmt_spec(c['mod'])}) diverges from Model/Timeline.lean: {div}", data=dict(kind='mod', **c))
+            ctx.broke('correspondence', 'C07.module', f"{fmt_case(c)} diverges from Model/Timeline.lean: {div}", data=dict(kind='mod', **c))
             if ndiv >= 5: break
+    correspond_update(ctx)
     check_consts(ctx)
 
 
+def tpars_tokens(d):
+    d = d or {}
+    return [tok(d.get('start')), tok(d.get('stop')), tok(d.get('dt')), '_' if d.get('unit') is None else unit_tok(d['unit'])]
+
+
+def correspond_update(ctx):
+    """ Time.update(pars, parent, force, **kwargs) on uninitialised Time objects, and re-initialisation after an update """
+    import starsim as ss
+    cases = scen.update_cases(ctx.rng, ctx.budget(150, 1500))
+    lines = []; obs = []
+    def py(d): return {k: (v if k == 'unit' else pyval(v)) for k, v in (d or {}).items() if v is not None}
+    def canon(x):
+        if x is None: return 'none'
+        if isinstance(x, str): return x
+        if isinstance(x, bool): return str(x)
+        if isinstance(x, int): return f'{x}i'
+        f = F(repr(float(x))); return f'{f.numerator}/{f.denominator}' if f.denominator != 1 else str(f.numerator)
+    for c in cases:
+        force = dict(F=False, N=None, T=True)[c['force']]
+        lines.append(' '.join(['update', c['force']] + tpars_tokens(c['self']) + tpars_tokens(c['kw']) + tpars_tokens(c['pars'])
+                              + ['1' if c['parent'] is not None else '0'] + tpars_tokens(c['parent'])))
+        try:
+            t = ss.Time(**py(c['self']), init=False)
+            parent = ss.Time(**py(c['parent']), init=False) if c['parent'] is not None else None
+            t.update(pars=py(c['pars']) or None, parent=parent, force=force, **py(c['kw']))
+            def v(x): return ('D' + x) if isinstance(x, str) else canon(x)
+            obs.append(f"upd start={v(t.start)} stop={v(t.stop)} dt={canon(t.dt)} unit={'_' if t.unit is None else unit_tok(t.unit)} ready={int(t.ready)}")
+        except Exception as e:
+            obs.append(f'raised {type(e).__name__}: {e}')
+    out = ctx.drive(DRIVER, lines)
+    for c, ln, o, m in zip(cases, lines, obs, out):
+        ctx.count('update_cases')
+        ctx.case(('update', ln), nontrivial=True, sample=dict(kind='update', line=ln, impl=o) if ctx.cases % 97 == 0 else None)
+        if o != m:
+            ctx.broke('correspondence', 'C07.update', f'Time.update diverges from Model/Timeline.lean `update`: `{ln}` impl `{o}` model `{m}`', data=dict(kind='update', case=c))
+            break
+    # an update of an initialised Time re-initialises it: the vectors are those of a fresh Time with the new parameters
+    for base, change in ((dict(start=2000, stop=2002, dt=0.5, unit='year'), dict(dt=0.25)),
+                         (dict(start='2020-01-01', stop='2020-03-01', dt=1.0, unit='day'), dict(dt=7.0)),
+                         (dict(start='2020-01-01', stop='2020-03-01', dt=1.0, unit='day'), dict(unit='week')),
+                         (dict(start=0, stop=10, dt=1.0, unit='year'), dict(stop=20)),
+                         (dict(start=2000, stop=2002, dt=0.5, unit='year'), dict(start=2001))):
+        t = ss.Time(**base); t.update(**change)
+        fresh = ss.Time(**dict(base, **change))
+        a, b = observe_time(t), observe_time(fresh)
+        ctx.count('update_reinit_checks')
+        if any(a[k] != b[k] for k in ('npts', 'timevec', 'yearvec', 'datevec', 'tvec')):
+            ctx.fail(dict(oracle='update', cause='stale-vectors'), f'ss.Time(**{base}).update(**{change}) leaves vectors that are not those of ss.Time(**{dict(base, **change)}): npts {a["npts"]} vs {b["npts"]}',
+                     dict(kind='update-reinit', base=base, change=change))
+
+
+def fmt_case(case):
+    out = 'sim' + fmt_spec(case['sim'])
+    if case.get('mod') is not None: out += f" with {case.get('modkind', 'sis')}{fmt_spec(case['mod'])}"
+    if case.get('mod2') is not None: out += f" and second{fmt_spec(case['mod2'])}"
+    return out
+
+
 def fmt_spec(s):
-    return '(' + ', '.join(f'{k}={(v if k == "unit" else pyval(v, k == "dt"))!r}' for k, v in s.items() if k not in ('family', 'reject') and v is not None) + ')'
+    return '(' + ', '.join(f'{k}={(v if k in ("unit", "name") else pyval(v))!r}' for k, v in s.items() if k not in ('family', 'reject') and v is not None) + ')'
 
 
 def corpus_specs():
@@ -635,7 +835,7 @@ def to_obs(o):
                         datevec=[dtm.date(*[int(p) for p in d.split('-')]) for d in o['datevec']],
                         tvec=[F(dec_float(x)) for x in o['tvec']],
                         abstvec=None if o['abstvec'] is None else [F(dec_float(x)) for x in o['abstvec']],
-                        reslens=o['reslens']))
+                        reslens=o['reslens'], now=o.get('now', []), copies=o.get('copies', [])))
 
 
 def dec_float(x):
@@ -647,17 +847,71 @@ def resolved_spec(o, given_unit, given, sim_o=None):
     """ The specification of one timeline as the code resolved it (unit, start, stop, dt as decimal strings / D-dates) """
     def val(x):
         if hasattr(x, 'year'): return 'D' + iso(x)
+        if isinstance(x, str):          # a date the code left as the string it was given
+            y, m, d = (int(p) for p in x.replace('.', '-').split('-')[:3])
+            return f'D{y:04d}-{m:02d}-{d:02d}'
         return repr(x) if isinstance(x, float) else str(x)
     return dict(unit=o['unit'], start=val(o['start']), stop=val(o['stop']), dt=repr(float(o['dt'])))
+
+
+_RUNS = {}      # results of run_impl within this process: the oracle judges the runs the correspondence already made
+
+
+def run_case(case):
+    key = json.dumps({k: case.get(k) for k in ('kind', 'sim', 'mod', 'modkind', 'extra', 'mod2')}, sort_keys=True, default=str)
+    if key not in _RUNS:
+        s = case['sim']
+        if case.get('kind') == 'mod' or case.get('mod') is not None:
+            _RUNS[key] = run_impl(s, case.get('mod') or {}, case.get('modkind', 'sis'), case.get('extra', ()), case.get('mod2'))
+        else:
+            _RUNS[key] = run_impl(s)
+    return _RUNS[key]
+
+
+def is_int_str(x):
+    return isinstance(x, str) and x.lstrip('-').isdigit()
+
+
+def float_typed(case):
+    """ the same specification with every int-typed dt written as a float (2 -> 2.0), or None if there is none """
+    c = json.loads(json.dumps(case, default=str)); changed = False
+    for part in ('sim', 'mod', 'mod2'):
+        d = c.get(part)
+        if d and is_int_str(d.get('dt')):
+            d['dt'] = d['dt'] + '.0'; changed = True
+    return c if changed else None
 
 
 def oracle_case(case):
     """ Run one stored case on the real code and judge it with the reference.  Returns (fails, info) """
     s = case['sim']
-    r = run_impl(s, case.get('mod'), case.get('modkind', 'sis'), case.get('extra', ())) if case.get('kind') == 'mod' else run_impl(s)
-    if 'err' in r:
-        return [], dict(rejected=r['err'])
+    r = run_case(case)
     fails = []
+    if r.get('err') == 'E:Hang':
+        dt0 = s.get('dt') is not None and F(s['dt']) == 0
+        cal = is_date(s.get('start', 'D' if canon_unit(s.get('unit', '')) in ('day', 'week', 'month') else '0')) and canon_unit(s.get('unit', '')) in ('day', 'week', 'month')
+        fails.append(dict(signature=dict(oracle='termination', cause='dt-zero-date-timeline' if (dt0 and cal) else 'other'),
+                          what=f"sim{fmt_spec(s)}: ss.Sim(...).init() did not return within {TIME_LIMIT if not dt0 else SHORT_LIMIT} s"
+                               + (' (dt=0 is handed to sc.daterange, whose loop `curr_date += 0 days` never ends)' if dt0 and cal else '')))
+        return fails, dict(rejected='E:Hang')
+    # the Python type of dt (2 vs 2.0) must not decide whether a specification is accepted
+    fc = float_typed(case)
+    if fc is not None:
+        rf = run_case(fc)
+        if ('err' in r) != ('err' in rf) or ('err' in r and r['err'] != rf['err']):
+            cast = 'err' in r and 'Cannot cast ufunc' in r.get('exc', '') and 'err' not in rf
+            fails.append(dict(signature=dict(oracle='int-vs-float-dt', cause='numpy-casting-error' if cast else 'other'),
+                              what=f"{fmt_case(case)}: with an int dt the outcome is {r.get('exc', 'accepted')!r}, with the same dt as a float {rf.get('exc', 'accepted')!r}"))
+        elif 'err' not in r:
+            for name in ['<sim>'] + sorted(r['mods']):
+                a = r['sim'] if name == '<sim>' else r['mods'][name]
+                b = rf['sim'] if name == '<sim>' else rf['mods'].get(name)
+                if b is None or any(a[k] != b[k] for k in ('npts', 'timevec', 'yearvec', 'datevec', 'tvec', 'abstvec')):
+                    fails.append(dict(signature=dict(oracle='int-vs-float-dt', cause='timeline-differs'),
+                                      what=f'{fmt_case(case)}: the timeline of {name} differs between int and float dt'))
+                    break
+    if 'err' in r:
+        return fails, dict(rejected=r['err'])
     so = r['sim']
     sspec = resolved_spec(so, s.get('unit'), s)
     # the user's numbers, where given, are the reference for a numeric sim (stop = start + dur exactly)
@@ -680,17 +934,23 @@ def oracle_case(case):
     for name, mo in r['mods'].items():
         mspec = resolved_spec(mo, None, None)
         mobs = to_obs(mo)
-        given = case.get('mod') or {}
-        who = f"module {name}{fmt_spec(given) if name == expected_name(case) else '()'} in sim{fmt_spec(s)}"
-        if name == expected_name(case):
-            if given.get('dt') is not None: mspec['dt'] = given['dt']
-            if mo['numeric']:
-                if given.get('start') is not None: mspec['start'] = given['start']
-                elif so['numeric'] and s.get('start') is not None and mo['unit'] == so['unit']: mspec['start'] = s['start']
-                if given.get('stop') is not None: mspec['stop'] = given['stop']
-                elif so['numeric'] and mo['unit'] == so['unit']: mspec['stop'] = sspec['stop']
-        elif mo['numeric'] and so['numeric'] and mo['unit'] == so['unit']:
-            mspec.update(start=sspec['start'], stop=sspec['stop'], dt=sspec['dt'] if float(mo['dt']) == float(so['dt']) else mspec['dt'])
+        # what the constructed module held before sim.init() (its own overrides and its class defaults)
+        gp = r['modpars'].get(name) or dict(unit=None, start=None, stop=None, dt=None)
+        def gstr(x):
+            if x is None: return None
+            if hasattr(x, 'year'): return 'D' + iso(x)
+            if isinstance(x, str): return 'D' + x
+            return repr(x) if isinstance(x, float) else str(x)
+        shown = {k: gstr(v) if k != 'unit' else v for k, v in gp.items() if v is not None}
+        who = f"module {name}{fmt_spec(shown)} in sim{fmt_spec(s)}"
+        same_unit = mo['unit'] == so['unit']
+        if gp['dt'] is not None: mspec['dt'] = gstr(gp['dt'])
+        elif same_unit: mspec['dt'] = sspec['dt']
+        if mo['numeric']:
+            if gp['start'] is not None and not hasattr(gp['start'], 'year') and not isinstance(gp['start'], str): mspec['start'] = gstr(gp['start'])
+            elif gp['start'] is None and so['numeric'] and same_unit: mspec['start'] = sspec['start']
+            if gp['stop'] is not None and not hasattr(gp['stop'], 'year') and not isinstance(gp['stop'], str): mspec['stop'] = gstr(gp['stop'])
+            elif gp['stop'] is None and so['numeric'] and same_unit: mspec['stop'] = sspec['stop']
         fails += ref.check_timeline(mspec, mobs, who)
         fails += check_defaults(r['modpars'].get(name), so, mo, sobs, mobs, who)
         pf, skipped = ref.check_placement(sspec, sobs, mspec, mobs, who)
@@ -733,13 +993,23 @@ def search(ctx):
     for b in ctx.broken:       # inputs on which a tie diverged come first
         d = b.get('data')
         if isinstance(d, dict) and 'sim' in d:
-            cases.append(dict(kind=d.get('kind', 'sim'), sim=d['sim'], mod=d.get('mod'), modkind=d.get('modkind', 'sis'), extra=d.get('extra', [])))
-    n = ctx.budget(180, 1500)
+            cases.append(dict(kind=d.get('kind', 'sim'), sim=d['sim'], mod=d.get('mod'), modkind=d.get('modkind', 'sis'), extra=d.get('extra', []), mod2=d.get('mod2')))
+    # the scenario families every run exercises (their runs are shared with the correspondence)
+    cases += [dict(kind='sim', sim=sp) for sp in scen.fixed_sims()]
+    cases += [dict(kind='mod', **c) for c in scen.fixed_mods()]
+    n = ctx.budget(120, 1500)
     for i in range(n):
         if i % 3 == 2:
             c = gen_mod_case(rng); cases.append(dict(kind='mod', **c))
         else:
             cases.append(dict(kind='sim', sim=gen_sim_spec(rng)))
+    for simkw, probekw in RUN_SCENARIOS:
+        try:
+            for f in oracle_scheduled_now(simkw, probekw):
+                ctx.fail(f['signature'], f['what'], dict(kind='run', sim=simkw, probe=probekw))
+            ctx.count('oracle_run_scenarios')
+        except Exception as e:
+            ctx.broke('search', 'C07.run', f'run scenario {simkw} {probekw} raised {type(e).__name__}: {e}')
     for case in cases:
         try:
             fails, info = oracle_case(case)
@@ -753,8 +1023,61 @@ def search(ctx):
             ctx.fail(f['signature'], f['what'], case)
 
 
+RUN_SCENARIOS = [
+    (dict(unit='year', start=2000, stop=2006, dt=1.0), dict(dt=2.0)),
+    (dict(unit='year', start=2000, stop=2003, dt=1.0), dict(dt=0.5)),
+    (dict(unit='year', start=2000, stop=2001, dt=0.2), dict(unit='day', dt=73.0)),
+    (dict(unit='day', start='2020-01-01', dur=30, dt=1.0), dict(unit='week')),
+    (dict(unit='year', start='1999-07-01', stop='2001-07-01', dt=0.5), dict(unit='month', dt=3.0)),
+    (dict(unit='day', start=0, dur=40, dt=2.0), dict(dt=4.0, start=8.0)),
+    (dict(unit='unitless', start=0, dur=6, dt=1.0), dict(dt=2.0)),
+]
+
+
+def oracle_scheduled_now(simkw, probekw):
+    """ Run a small sim with a probe on its own timeline: at the probe's k-th call its step counter is k, now() in every
+        representation is its own point k, and that point is the instant the loop is at: after the sim's previous point
+        and not after the sim's current one (elapsed axis) """
+    import starsim as ss
+    class Probe(ss.Analyzer):
+        def __init__(self, **kw):
+            super().__init__(**kw); self.log = []
+        def step(self):
+            t, st = self.t, self.sim.t
+            self.log.append(dict(ti=int(t.ti), year=float(t.now('year')), tvec=float(t.now('tvec')), sim_ti=int(st.ti), sim_year=float(st.now('year')), sim_tvec=float(st.now('tvec'))))
+    sim = ss.Sim(n_agents=N_AGENTS, verbose=0, diseases='sis', networks='random', analyzers=Probe(**probekw), **simkw)
+    sim.run()
+    p = sim.analyzers[0]
+    fails = []
+    who = f'probe({probekw}) in ss.Sim({simkw})'
+    def fail(cause, what): fails.append(dict(signature=dict(oracle='scheduled-now', cause=cause), what=f'{who}: {what}'))
+    abst = [float(x) for x in p.t.abstvec]; stv = [float(x) for x in sim.t.tvec]; yv = [float(x) for x in p.t.yearvec]
+    eps = float(ref.TOL)
+    expected_calls = [k for k in range(int(p.t.npts)) if abst[k] <= stv[-1] + eps]
+    if [r['ti'] for r in p.log] != expected_calls:
+        fail('calls', f"called at own steps {[r['ti'] for r in p.log][:12]} but its timeline has the points {expected_calls[:12]} within the sim")
+        return fails
+    for r in p.log:
+        k = r['ti']
+        if abs(r['year'] - yv[k]) > eps or abs(r['tvec'] - float(p.t.tvec[k])) > eps:
+            fail('now', f"at its call {k} now('year')={r['year']} / now('tvec')={r['tvec']} but its point {k} is year {yv[k]}, tvec {float(p.t.tvec[k])}"); break
+        lo = stv[r['sim_ti'] - 1] if r['sim_ti'] > 0 else float('-inf')
+        if not (lo + eps < abst[k] <= stv[r['sim_ti']] + eps) or abs(r['sim_tvec'] - stv[r['sim_ti']]) > eps:
+            fail('instant', f"its point {k} lies at elapsed sim time {abst[k]} but it is called while the sim is at {r['sim_tvec']} (previous sim point {lo})"); break
+    return fails
+
+
 def replay(ctx, data):
     set_eps(None)
+    if data.get('kind') == 'run':
+        return bool(oracle_scheduled_now(data['sim'], data['probe']))
+    if data.get('kind') == 'update-reinit':
+        import starsim as ss
+        t = ss.Time(**data['base']); t.update(**data['change'])
+        a, b = observe_time(t), observe_time(ss.Time(**dict(data['base'], **data['change'])))
+        return any(a[k] != b[k] for k in ('npts', 'timevec', 'yearvec', 'datevec', 'tvec'))
+    if data.get('kind') == 'update':
+        return False
     fails, info = oracle_case(data)
     for f in fails[:5]:
         print('  ' + f['what'][:300], f['signature'])
